@@ -224,7 +224,14 @@ def _record(src):
                 return A.finish(case, c, pre, rng, labels, checks, 'set', labels, src['basis'], bound)
             c, ops = A.make_host(src, n)
             pre = project(c)
-            res = (ar.add_sum_n_weighted_bits if eff else ar.add_sum_n_weighted_bits_naive)(c, [(ws[j], ops[j]) for j in range(n)], **bk)
+            # the naive variant declares its operands Iterable[tuple[int, Label]]: a list, a tuple, a generator, a zip object, an
+            # iterator; the efficient one documents a list of pairs (it takes len() of it): lists and tuples only
+            pairs = [(ws[j], ops[j]) for j in range(n)]
+            how = (sum(ws) + n) % 5
+            if eff:
+                how = how % 2
+            arg = pairs if how == 0 else tuple(pairs) if how == 1 else (p_ for p_ in pairs) if how == 2 else zip(ws, list(ops)) if how == 3 else iter(pairs)
+            res = (ar.add_sum_n_weighted_bits if eff else ar.add_sum_n_weighted_bits_naive)(c, arg, **bk)
             ins = [[ws[j], ops[j]] for j in range(n)]
             outs = [[int(lv), lab] for lv, lab in res]
             m = len(res)
